@@ -94,12 +94,18 @@ def write_program(d, name, src):
 def choose_scenarios(seed, tier):
     """quick: every access kind on the two plainest mechanisms, every mechanism with the plain field store under both
     entries (scenario called from main / started with `go`), plus one seed-rotated (access, target, entry) combination per
-    mechanism; thorough: the full product mechanism x access x target x entry, in chunks."""
+    mechanism; thorough: mechanism x access x entry on the shared object itself plus 6 rotated accesses per
+    mechanism on child / late-child targets, in chunks of 420."""
     mechs = sorted(c14gen.MECHS)
     accs = sorted(c14gen.ACCS)
     rnd = vlib.lcg(seed * 7919 + 13)
     if tier != "quick":
-        allsc = [(m, a, t, e) for e in ("call", "go") for t in c14gen.TARGETS for m in mechs for a in accs]
+        # mechanism x access x entry on the object itself, plus 6 seed-rotated accesses per mechanism on the child targets
+        allsc = [(m, a, "self", e) for e in ("call", "go") for m in mechs for a in accs]
+        off = rnd(len(accs))
+        for k, m in enumerate(mechs):
+            for j in range(6):
+                allsc.append((m, accs[(off + k * 5 + j * 7) % len(accs)], ("child", "latechild")[j % 2], ("call", "go")[(k + j) % 2]))
         n = 420
         return [allsc[i:i + n] for i in range(0, len(allsc), n)]
     sel = []
@@ -347,12 +353,13 @@ def run(chk):
         chk.notes.append("corpus dump messages: %s" % cdump["errors"][:4])
 
     chk.proof_broken(failed, found_concrete)
-    chk.cov["evaluations"] = stats["race_sides"]
+    chk.cov["evaluations"] = stats["race_sides"] + stats.get("tie_compared", 0)
     chk.cov["distinct_nontrivial"] = len(distinct)
     chk.cov["rule"] = ("one evaluation = one access of a race reported by the Go race detector on a generated scenario, looked up in the "
-                       "impl's per-context locality dump; non-trivial+distinct = distinct (sharing mechanism, set of accessing instruction "
+                       "impl's per-context locality dump, or one memory instruction of a random calculus program whose impl verdict is compared "
+                       "with the extracted model's; non-trivial+distinct = distinct (sharing mechanism, set of accessing instruction "
                        "kinds on the racing line) pairs for which a race was observed natively and the impl verdict was compared")
-    chk.cov["traces_validated_against_impl"] = stats["race_sides_nonlocal"]
+    chk.cov["traces_validated_against_impl"] = stats["race_sides_nonlocal"] + stats.get("tie_agree_local", 0) + stats.get("tie_agree_nonlocal", 0)
     chk.cov["distribution"] = stats
     chk.assumptions += ["ground truth = ThreadSanitizer happens-before race reports of `go build -race` binaries (false negatives possible, "
                         "no false positives); both racing accesses always execute, nothing orders them",
